@@ -7,6 +7,7 @@ open Drv
 structure AllDrv where
   srv : SrvDrv
   txn : Turn.Txn.St
+  cli : Turn.Cli.State
 
 def stepLine (d : AllDrv) (line : String) : AllDrv × Option String :=
   let toks := (line.splitOn " ").filter (· ≠ "")
@@ -20,7 +21,10 @@ def stepLine (d : AllDrv) (line : String) : AllDrv × Option String :=
       | none =>
         match txnStep d.txn rest with
         | some (t', r) => ({ d with txn := t' }, some r)
-        | none => (d, some "bad-op")
+        | none =>
+          match cliStep d.cli rest with
+          | some (c', r) => ({ d with cli := c' }, some r)
+          | none => (d, some "bad-op")
   | _ => (d, none)
 
 partial def loop (hin hout : IO.FS.Stream) (d : AllDrv) : IO Unit := do
@@ -35,5 +39,5 @@ partial def loop (hin hout : IO.FS.Stream) (d : AllDrv) : IO Unit := do
 def main : IO Unit := do
   let hin ← IO.getStdin
   let hout ← IO.getStdout
-  loop hin hout ⟨SrvDrv.init, ⟨0, []⟩⟩
+  loop hin hout ⟨SrvDrv.init, ⟨0, []⟩, Turn.Cli.init⟩
   hout.flush
